@@ -407,14 +407,15 @@ func runC11(e *Engine, r *Report, tier string) {
 			if _, ok := methodCallOn(a[1], "GetShares"); ok {
 				okArg = true
 			}
-			if subAmt != nil && SameExpr(a[1], subAmt, 6) {
+			// the transferred amount is the delegation's whole share only for a recipient created by this transfer
+			if what == "create" && subAmt != nil && SameExpr(a[1], subAmt, 6) {
 				okArg = true
 			}
 			if n, _, ok := fieldNameOfLoad(a[1]); ok && n == "Shares" {
 				okArg = true
 			}
 		}
-		r.Check(okArg, "R4", ck, e.InstrPos(at), what+": Stake = validator.TokensFromSharesTruncated(<delegation shares | transferred shares>)", what+": Stake is computed from something that is not the delegation's shares")
+		r.Check(okArg, "R4", ck, e.InstrPos(at), what+": Stake = validator.TokensFromSharesTruncated(<delegation shares | transferred shares>)", what+": Stake is computed from something that is not the delegation's shares (for an existing delegation the transferred amount is only part of them: its rewards would accrue on the moved shares alone)")
 	}
 	allInstrs(fn, func(i ssa.Instruction) {
 		if st, ok := i.(*ssa.Store); ok {
